@@ -143,9 +143,13 @@ def project_json(text: str) -> dict:
                 obs['originator'] = list(ipaddress.ip_address(v).packed)
             elif k == 'cluster-list':
                 obs['cluster'] = [list(ipaddress.ip_address(x).packed) for x in v]
-            elif k.startswith('attribute-0x'):
-                code = int(k.split('-')[1], 16)
-                obs['unknown'] = [code, list(bytes.fromhex(v[2:]))]
+            elif k.startswith('attribute-0x') and isinstance(v, str) and v.startswith('0x') and int(k.split('-')[1], 16) < 256:
+                try:
+                    obs['unknown'] = [int(k.split('-')[1], 16), list(bytes.fromhex(v[2:]))]
+                except ValueError:
+                    obs['extra'].append(k)
+            elif k in ('error', 'treat-as-withdraw', 'discard') or k.startswith('attribute-0xFFF'):
+                obs['marker'] = k  # internal pseudo-attribute (treat-as-withdraw / discard marker): not a BGP attribute
             else:
                 obs['extra'].append(k)
     return obs
